@@ -1986,6 +1986,55 @@ func helperResult(fn *ssa.Function) []string {
 			}
 		}
 	}
+	// the same two steps in a deferred closure that captures the buffer: Reset comes before Put there too
+	if al, spilled := buf.(*ssa.Alloc); spilled {
+		for _, an := range fn.AnonFuncs {
+			captured := func(v ssa.Value) bool {
+				ld, ok := v.(*ssa.UnOp)
+				if !ok || ld.Op != token.MUL {
+					return false
+				}
+				fv, ok := ld.X.(*ssa.FreeVar)
+				if !ok {
+					return false
+				}
+				for _, b := range fn.Blocks {
+					for _, ins := range b.Instrs {
+						if mc, isMC := ins.(*ssa.MakeClosure); isMC && mc.Fn == ssa.Value(an) {
+							for k, f := range an.FreeVars {
+								if f == fv && k < len(mc.Bindings) && mc.Bindings[k] == ssa.Value(al) {
+									return true
+								}
+							}
+						}
+					}
+				}
+				return false
+			}
+			var aReset, aPut ssa.Instruction
+			for _, b := range an.Blocks {
+				for _, ins := range b.Instrs {
+					call, ok := ins.(*ssa.Call)
+					if !ok {
+						continue
+					}
+					if cal := call.Call.StaticCallee(); cal != nil && cal.Signature.Recv() != nil && len(call.Call.Args) > 0 && captured(call.Call.Args[0]) && cal.Name() == "Reset" {
+						aReset = call
+					}
+					for _, a := range call.Call.Args {
+						if captured(a) {
+							if cal := call.Call.StaticCallee(); cal != nil && cal.Name() == "Put" {
+								aPut = call
+							}
+						}
+					}
+				}
+			}
+			if aPut != nil && (aReset == nil || !before(aReset, aPut)) {
+				problems = append(problems, "the pooled buffer is put back (in the deferred function) without a Reset before it: the next call starts with this call's octets in it")
+			}
+		}
+	}
 	_, fromPool := buf.(*ssa.Call)
 	if fromPool && put != nil {
 		if reset == nil || !before(reset, put) {
